@@ -157,6 +157,12 @@ def build(cp, case):
     cfg_names = ["tower_%s" % "ABCD"[i] for i in range(nt)]
     towers = [{"name": n, "lat": 50.0 + float(rng.uniform(-0.01, 0.01)), "lon": 8.0 + float(rng.uniform(-0.01, 0.01)),
                "z_m": float(rng.uniform(1.5, 30.0))} for n in cfg_names]
+    # a tower on the equator / on the prime meridian / at (0, 0) of an idealised frame: 0.0 is a coordinate, not "missing"
+    zero = case["seed"] % 6
+    if zero in (0, 2):
+        towers[0]["lat"] = 0.0
+    if zero in (1, 2):
+        towers[-1]["lon"] = 0.0
     config = cp.parse_config_dict({
         "domain": {"nx": nx, "ny": ny, "xmax": 100.0, "ymax": 80.0, "nz": 4, "ref_lat": 50.0, "ref_lon": 8.0},
         "towers": towers,
